@@ -200,10 +200,35 @@ def lean_step(prop: str, extra_modules: list[str] | None = None, thorough: bool 
         if not DRIVER_BIN.exists():
             res.ok = False
             res.broken.append("driver executable missing")
+        else:
+            # private, content-addressed copy: a concurrent check may relink the shared binary
+            _pin_driver()
     finally:
         fcntl.flock(lock, fcntl.LOCK_UN)
         lock.close()
     return res
+
+
+def _pin_driver():
+    global DRIVER_BIN
+    import shutil
+
+    data = DRIVER_BIN.read_bytes()
+    h = hashlib.sha1(data).hexdigest()[:16]
+    pinned = DRIVER_BIN.parent / f"rpft_driver.{h}"
+    if not pinned.exists():
+        tmp = DRIVER_BIN.parent / f".rpft_driver.{h}.{os.getpid()}"
+        tmp.write_bytes(data)
+        os.chmod(tmp, 0o755)
+        os.replace(tmp, pinned)
+        # keep the directory small
+        old = sorted(DRIVER_BIN.parent.glob("rpft_driver.*"), key=lambda q: q.stat().st_mtime)
+        for q in old[:-6]:
+            try:
+                q.unlink()
+            except OSError:
+                pass
+    DRIVER_BIN = pinned
 
 
 def parse_axioms(out: str) -> dict[str, list[str]]:
